@@ -3,6 +3,7 @@
 From Coq Require Import List NArith Bool String Lia.
 From KV Require Import Bytes Engine ReadOnly.
 From KV.gen Require Import Api.
+From KV.gen Require ApplierFacts.
 Import ListNotations.
 Open Scope N_scope.
 Open Scope list_scope.
@@ -123,6 +124,22 @@ Theorem internal_only_replication : forall p, In p internal_callers -> fst p = "
 Proof.
   assert (H : forallb (fun p => String.eqb (fst p) "pkg/replication") internal_callers = true) by (vm_compute; reflexivity).
   intros p Hp. apply String.eqb_eq. exact (proj1 (forallb_forall _ _) H p Hp).
+Qed.
+
+(* The replica's applier (pkg/replication/engine_applier.go) reaches the engine through ad-hoc
+   interface assertions; step_repl models the paths taken when they succeed (PutInternal /
+   DeleteInternal: the read-only flag is not touched). gofacts/applier.go lists every asserted
+   interface with whether *engine.EngineFacade really satisfies it (names AND signatures, decided
+   by go/types): all must be satisfied, and the two internal paths must be among them — otherwise
+   the applier falls through to SetReadOnly(false) ... SetReadOnly(true) around a guarded call. *)
+Definition assertion_ok (r : string * string * bool) : bool := snd r.
+Theorem applier_paths_satisfied :
+  forallb assertion_ok ApplierFacts.applier_assertions = true /\
+  In ("applyInReadOnlyMode"%string, "PutInternal"%string, true) ApplierFacts.applier_assertions /\
+  In ("applyInReadOnlyMode"%string, "DeleteInternal"%string, true) ApplierFacts.applier_assertions.
+Proof.
+  split; [vm_compute; reflexivity|].
+  split; vm_compute; tauto.
 Qed.
 
 Example internal_callers_nonvacuous : internal_callers <> [].
